@@ -140,7 +140,7 @@ def build_target(t):
     return (t, time.time() - t0, "")
 
 
-def prune_build(limit_gb=6.0):
+def prune_build(limit_gb=10.0):
     root = os.path.join(BUILD, "obj")
     if not os.path.isdir(root):
         return
@@ -155,11 +155,17 @@ def prune_build(limit_gb=6.0):
                     sz += os.path.getsize(os.path.join(d, f))
                 except OSError:
                     pass
-        ents.append((os.path.getmtime(p), sz, p))
+        try:
+            ents.append((os.path.getmtime(p), sz, p))
+        except OSError:
+            continue  # removed by a concurrent run
         total += sz
     ents.sort()
+    now = time.time()
     while total > limit_gb * 1e9 and ents:
         m, sz, p = ents.pop(0)
+        if now - m < 3 * 3600:
+            break  # never remove what a concurrent run may be building or about to execute (entries are touched on every use)
         shutil.rmtree(p, ignore_errors=True)
         total -= sz
 
@@ -295,7 +301,8 @@ def check_property(pid, tier, seed, replay=None, verbose=True):
     workdir = os.path.join(BUILD, "run-%s-%s-%d" % (pid, tier, os.getpid()))
     shutil.rmtree(workdir, ignore_errors=True)
     os.makedirs(workdir, exist_ok=True)
-    prune_build()
+    if replay is None:
+        prune_build()
     log = lambda *a: (print(*a, file=sys.stderr, flush=True) if verbose else None)
 
     # ---- plan (may generate sources into workdir) -------------------------------
